@@ -38,7 +38,7 @@ prop("C14", [_lazy("state", "rule_ctx1"), _lazy("state", "rule_ctx2"), _lazy("st
              _lazy("state", "rule_glob1"), _lazy("state", "rule_cache1"), _lazy("state", "rule_cache2"),
              _lazy("emit", "rule_label1"), _lazy("infer", "rule_val1"), _lazy("state", "rule_pure1"),
              _lazy("layout", "rule_nameord1"), _lazy("naming", "rule_nameord2"), _lazy("naming", "rule_rename1"),
-             _lazy("naming", "rule_optfwd1"), _lazy("cli_flow", "rule_reset1")],
+             _lazy("naming", "rule_optfwd1"), _lazy("cli_flow", "rule_reset1"), _lazy("cli_flow", "rule_regdeliv1")],
      "Static decision of the clauses of C14 that are visible in code shape: the thread-local reference context is "
      "saved/restored on every exit and only used through `with` (CTX-1..3); no function reachable from a library "
      "entry point writes module-level, class-level, closure or default-argument state (GLOB-1, effect summaries "
@@ -48,7 +48,7 @@ prop("C14", [_lazy("state", "rule_ctx1"), _lazy("state", "rule_ctx2"), _lazy("st
      "texts across call sequences")
 
 prop("C15", [_lazy("state", "rule_tls1"), _lazy("state", "rule_glob1"), _lazy("state", "rule_cache1"),
-             _lazy("state", "rule_thread1")],
+             _lazy("state", "rule_thread1"), _lazy("state", "rule_shared1")],
      "Static decision of: every read of a threading.local attribute is safe in a thread that never wrote it "
      "(TLS-1: defined by a threading.local subclass, or dominated by a write in the same function; an import-time "
      "assignment does not count); independent pipelines share no written state (GLOB-1, CACHE-1).",
@@ -86,7 +86,7 @@ prop("C05", [_lazy("registry", "rule_reg12"), _lazy("registry", "rule_reg3"), _l
 prop("C09", [_lazy("strtypes", "rule_det1"), _lazy("strtypes", "rule_det2"), _lazy("strtypes", "rule_det3"),
              _lazy("strtypes", "rule_det4"), _lazy("strtypes", "rule_det5"), _lazy("strtypes", "rule_res1"),
              _lazy("infer", "rule_val1"), _lazy("cli_flow", "rule_optflow6_disable"), _lazy("strtypes", "rule_cover1"),
-             _lazy("strtypes", "rule_rt1")],
+             _lazy("strtypes", "rule_rt1"), _lazy("cli_flow", "rule_regdeliv1")],
      "Static decision of the protocol clauses of C09: a registry class is returned as the detected type only where "
      "a completed call of that class's own parser on the unmodified input dominates the return and the rejecting "
      "handler cannot fall through (DET-1); the registry iterates its registration list, which is only appended to "
@@ -139,7 +139,7 @@ prop("C19", [_lazy("header", "rule_inj4"), _lazy("header", "rule_shape"), _lazy(
 prop("C16", [_lazy("cli_flow", "rule_optflow1"), _lazy("cli_flow", "rule_optflow2"), _lazy("cli_flow", "rule_optflow3"),
              _lazy("cli_flow", "rule_optflow4"), _lazy("cli_flow", "rule_stage_same"), _lazy("cli_flow", "rule_seq1"),
              _lazy("cli_fail", "rule_enc1"), _lazy("cli_flow", "rule_optflow6"), _lazy("cli_flow", "rule_path1"),
-             _lazy("cli_flow", "rule_reset1")],
+             _lazy("cli_flow", "rule_reset1"), _lazy("cli_flow", "rule_regdeliv1")],
      "Static decision of: every add_argument destination is read from the namespace and nothing else is "
      "(OPTFLOW-1); each option's value flows (forward taint through Cli's methods, attribute cells, dict keys, "
      "called callables) to its documented library parameter, not into another option's slot, and no hop of that "
@@ -179,7 +179,7 @@ prop("C10", [_lazy("emit", "rule_lim"), _lazy("emit", "rule_inj3"), _lazy("emit"
 
 prop("C11", [_lazy("emit", "rule_inj2"), _lazy("emit", "rule_inj5"), _lazy("emit", "rule_sib2"), _lazy("emit", "rule_label1"),
              _lazy("imports", "rule_shadow1"), _lazy("emit", "rule_dup1"), _lazy("state", "rule_cache2"),
-             _lazy("naming", "rule_optfwd1")],
+             _lazy("naming", "rule_optfwd1"), _lazy("naming", "rule_uniq1"), _lazy("naming", "rule_uniq2")],
      "Static decision of: every use of the original key in the field_data family is a comparison, a label "
      "conversion, a container display (rendered by repr) or an exact escaper in code context (INJ-2); on every "
      "feasible path of each generator the original key is attached and rendered whenever the name differs (and "
@@ -194,7 +194,8 @@ prop("C03", [_lazy("imports", "rule_imp1"), _lazy("imports", "rule_imp2"), _lazy
              _lazy("emit", "rule_label1"), _lazy("emit", "rule_dup1"), _lazy("emit", "rule_fwd1"),
              _lazy("emit", "rule_inj2"), _lazy("emit", "rule_inj3"), _lazy("emit", "rule_inj5"), _lazy("emit", "rule_sib1_layout"),
              _lazy("layout", "rule_lay1"), _lazy("layout", "rule_lay2"), _lazy("layout", "rule_imp4"),
-             _lazy("layout", "rule_nameord1"), _lazy("naming", "rule_nameord2")],
+             _lazy("layout", "rule_nameord1"), _lazy("naming", "rule_nameord2"), _lazy("naming", "rule_uniq1"),
+             _lazy("naming", "rule_uniq2")],
      "Static decision of: every import tuple a generator can emit (symbolic components expanded over the class "
      "tables) names an existing module and a name bound at its top level, read from the installed sources "
      "(IMP-1); every identifier in an emitted code fragment (templates, default/factory/converter strings, bases) "
@@ -232,7 +233,8 @@ prop("C12", [_lazy("layout", "rule_lay1"), _lazy("layout", "rule_lay2"), _lazy("
 
 prop("C01", [_lazy("infer", "rule_opt"), _lazy("infer", "rule_opt2"), _lazy("infer", "rule_opt3"), _lazy("infer", "rule_drop1"),
              _lazy("emit", "rule_dup1"), _lazy("emit", "rule_sib1"), _lazy("infer", "rule_eq1"), _lazy("infer", "rule_samples1"),
-             _lazy("strtypes", "rule_res1"), _lazy("strtypes", "rule_cover1"), _lazy("infer", "rule_elem1")],
+             _lazy("strtypes", "rule_res1"), _lazy("strtypes", "rule_cover1"), _lazy("infer", "rule_elem1"),
+             _lazy("naming", "rule_uniq1")],
      "Static decision of the optionality / completeness clauses of C01: on every feasible path of the per-field merge "
      "loop (path enumeration with the equality axioms of EQ-1/NF-3) the value left in the merged set is optional "
      "whenever the stored or the incoming side was optional or the field is new in a later set, and the stored type "
